@@ -68,6 +68,7 @@ type Term struct {
 	val  uint64 // constant value (masked) / extract bounds / extension amount
 	name string // variable or UF name
 	umax uint64 // unsigned upper bound (inclusive) for bit-vector terms
+	umin uint64 // unsigned lower bound (inclusive)
 	// side constraints that must be asserted whenever this atom is mentioned
 	side []*Term
 	// for atoms that are defined by a function of other terms (div/rem
@@ -139,6 +140,7 @@ func (tt *termTable) mk(op Op, w uint8, val uint64, name string, args []*Term) *
 		t.args = append([]*Term(nil), args...)
 	}
 	t.umax = tt.computeUmax(t)
+	t.umin = tt.computeUmin(t)
 	tt.tab[k] = t
 	tt.all = append(tt.all, t)
 	return t
@@ -221,6 +223,54 @@ func (tt *termTable) computeUmax(t *Term) uint64 {
 		return t.args[0].umax<<t.args[1].W | mask(t.args[1].W)
 	}
 	return m
+}
+
+func (tt *termTable) computeUmin(t *Term) uint64 {
+	if t.W == 0 {
+		return 0
+	}
+	switch t.op {
+	case OpConst:
+		return t.val
+	case OpZext:
+		return t.args[0].umin
+	case OpOr:
+		return max(t.args[0].umin, t.args[1].umin)
+	case OpAdd:
+		// valid only if the addition cannot wrap
+		a, b := t.args[0], t.args[1]
+		s, c := bits.Add64(a.umax, b.umax, 0)
+		if c == 0 && s <= mask(t.W) {
+			return a.umin + b.umin
+		}
+	case OpMul:
+		a, b := t.args[0], t.args[1]
+		hi, lo := bits.Mul64(a.umax, b.umax)
+		if hi == 0 && lo <= mask(t.W) {
+			return a.umin * b.umin
+		}
+	case OpIte:
+		return min(t.args[1].umin, t.args[2].umin)
+	case OpLShr:
+		if t.args[1].IsConst() && t.args[1].val < 64 {
+			return t.args[0].umin >> t.args[1].val
+		}
+	case OpUDiv:
+		if t.args[1].IsConst() && t.args[1].val > 0 {
+			return t.args[0].umin / t.args[1].val
+		}
+	}
+	return 0
+}
+
+// isQuotientMul reports whether m == q*c where q is the quotient atom of x by c
+// (then m <= x by q's defining constraint).
+func isQuotientMul(m, x *Term) bool {
+	if m.op != OpMul || !m.args[1].IsConst() {
+		return false
+	}
+	q := m.args[0]
+	return q.op == OpVar && q.def != nil && q.def.op == OpUDiv && q.def.args[0] == x && q.def.args[1].val == m.args[1].val
 }
 
 // ---------------------------------------------------------------- builders
@@ -552,6 +602,9 @@ func (tt *termTable) Cmp(op Op, a, b *Term) *Term {
 		if a.IsConst() {
 			a, b = b, a
 		}
+		if a.umax < b.umin || b.umax < a.umin {
+			return tt.False
+		}
 		if b.IsConst() {
 			if b.val > a.umax {
 				return tt.False
@@ -587,6 +640,15 @@ func (tt *termTable) Cmp(op Op, a, b *Term) *Term {
 		if a == b {
 			return tt.False
 		}
+		if a.umax < b.umin {
+			return tt.True
+		}
+		if a.umin >= b.umax {
+			return tt.False
+		}
+		if isQuotientMul(b, a) { // x < (x/c)*c is impossible
+			return tt.False
+		}
 		if b.IsConst() {
 			if b.val == 0 {
 				return tt.False
@@ -611,6 +673,15 @@ func (tt *termTable) Cmp(op Op, a, b *Term) *Term {
 		}
 	case OpUle:
 		if a == b {
+			return tt.True
+		}
+		if a.umax <= b.umin {
+			return tt.True
+		}
+		if a.umin > b.umax {
+			return tt.False
+		}
+		if isQuotientMul(a, b) { // (x/c)*c <= x
 			return tt.True
 		}
 		if b.IsConst() {
